@@ -430,8 +430,14 @@ async fn consumer_task(
     rec: Arc<Mutex<Recorder>>,
     mode: Consumer,
 ) {
+    if mode == Consumer::Never {
+        // hold the receiver, unpolled, until the director ends the run
+        let _keep = events;
+        std::future::pending::<()>().await;
+        return;
+    }
     let drop_at = match mode {
-        Consumer::Drain | Consumer::StartAt(_) => None,
+        Consumer::Drain | Consumer::StartAt(_) | Consumer::Never => None,
         Consumer::DropAt(ms) => Some(ms),
     };
     let t0 = tokio::time::Instant::now();
